@@ -533,7 +533,6 @@ pub async fn reader(cx: Arc<Ctx>, mut tr: TRecv, mut rng: Rng) {
     let mut next = 0u64; // ordered position
     let mut got = 0u64;
     let mut buf = vec![0u8; 20_000];
-    let mut fresh = true;
     loop {
         if let Some((at, code)) = stop_at {
             if got >= at {
@@ -574,14 +573,7 @@ pub async fn reader(cx: Arc<Ctx>, mut tr: TRecv, mut rng: Rng) {
                 OpRes::Done(Err(e)) => env.violate(format!("received_reset on {} failed with {e:?}", cx.tag(sid))),
             }
         }
-        let mut api = if unordered { 10 } else { rng.below(10) };
-        if api >= 8 && api < 10 && !fresh {
-            // read_to_end switches the stream to unordered reads; after ordered reads quinn-proto can
-            // deliver already-read bytes again (a protocol-core defect reported under C01/C11), so the
-            // async-layer programs only use it on streams that have not been read yet
-            api = rng.below(8);
-        }
-        fresh = false;
+        let api = if unordered { 10 } else { rng.below(10) };
         match api {
             0..=2 => {
                 let n = *rng.pick(&[1usize, 7, 333, 1200, 20_000]);
@@ -688,7 +680,8 @@ pub async fn reader(cx: Arc<Ctx>, mut tr: TRecv, mut rng: Rng) {
                 }
             }
             _ => {
-                // read_to_end from the current position (only after ordered reads: the start offset is known)
+                // read_to_end from the current position (after ordered reads only: the start offset is then
+                // known; it switches the stream to unordered reads)
                 let c = cancel(&mut rng, upct);
                 match env.op(OpKind::ReadToEnd, me, Some(sid), c, tr.get().read_to_end(1 << 22)).await {
                     OpRes::Done(Ok(v)) => {
